@@ -426,7 +426,7 @@ def generate(rng, tier):
     return g, expected
 
 
-SORT_TOKENS = ("C", "CT", "OSP")
+SORT_TOKENS = ("OSP",)
 
 
 def canon_answer(op, ans):
